@@ -891,7 +891,10 @@ def hook_save(name):
     """save one object of the hook family (in a worker process of its own) and hand the saved state back"""
     common.ensure_repo_on_path()
     from harness.props import c19_classes as cc
-    return name, getattr(cc, name)().save()
+    try:
+        return name, getattr(cc, name)().save()
+    except BaseException as e:  # noqa
+        return name, 'save raised ' + type(e).__name__
 
 
 def hook_load(arg):
@@ -901,10 +904,12 @@ def hook_load(arg):
     import plumpy
     name, state = arg
     try:
+        if isinstance(state, str):
+            raise RuntimeError(state)
         back = plumpy.Savable.load(state, None)
         got = {k: getattr(back, k, '<missing>') for k in HOOK_WANT[name]}
     except BaseException as e:  # noqa
-        got = 'raised ' + type(e).__name__
+        got = state if isinstance(state, str) else 'raised ' + type(e).__name__
     if got != HOOK_WANT[name]:
         return [dict(signature='hook-declared-member-not-restored', clause='saving and recreating restores every member declared with '
                      'auto_persist (here: declared in the persist() hook, state loaded in an interpreter that never saved the class)',
